@@ -276,3 +276,196 @@ def replay_sca_send_timeouts(model, params, role):
         return "router_send_blocks -1 33\n", (lambda out: "blocked send returned after" in out and "Err(" in out), \
             "ROUTER with SNDTIMEO=-1 sending to a peer that stopped reading; expecting the blocked send to FAIL on its own instead of waiting"
     return None
+
+
+# ------------------------------------------------------------------------------------------------
+# DEALER: the two wait loops of the send path (waiting for another task's multi-frame transaction to finish,
+# waiting for room in the pending queue) must not wait longer than SNDTIMEO in total, however often they are woken
+DEALER = "socket::dealer_socket::DealerSocket"
+
+
+def _dealer_socket(h, sndtimeo, sndhwm=1):
+    from .d_c09 import _lock
+    from ..models import MapV
+    prog = h.it.prog
+    cf = prog.struct_fields("socket::core::SocketCore")
+    core_vals = [Opaque(f) for f in cf]
+    csf = prog.struct_fields("socket::core::state::CoreState")
+    cs_vals = [Opaque(f) for f in csf]
+    of = prog.struct_fields("socket::options::SocketOptions")
+    o_vals = [Opaque(f) for f in of]
+    o_vals[of.index("sndtimeo")] = sndtimeo
+    o_vals[of.index("sndhwm")] = sndhwm
+    cs_vals[csf.index("options")] = BoxV(Cell(Agg("socket::options::SocketOptions", o_vals), "options"), ())
+    core_vals[cf.index("core_state")] = _lock(Agg("socket::core::state::CoreState", cs_vals))
+    core_vals[cf.index("handle")] = 1
+    core = BoxV(Cell(Agg("socket::core::SocketCore", core_vals), "core"), ())
+    h.it.hooks["socket::core::SocketCore::is_running"] = lambda it2, a, d, f: True
+    idle = Enum("socket::dealer_socket::DealerSendTransaction", 0, "Idle", [])
+    vals = {"core": core,
+            "pending_outgoing_queue": BoxV(Cell(Agg("{amutex}", [False, Seq("vecdeque", [], "message::FrameBatch")]), "queue"), ()),
+            "outgoing_queue_activity_notifier": BoxV(Cell(Agg("{notify}", [0, False]), "queue_notify"), ()),
+            "peer_availability_notifier": BoxV(Cell(Agg("{notify}", [0, False]), "peer_notify"), ()),
+            "current_send_transaction": Agg("{amutex}", [False, idle])}
+    fields = prog.struct_fields(DEALER)
+    sock = Ref(Cell(Agg(DEALER, [vals.get(f, Opaque(f)) for f in fields]), "dealer"), ())
+    return sock, fields
+
+
+def dealer_send_wait_loops(h):
+    """DealerSocket::send_multipart while another task's frame-by-frame send is in progress (the loop around
+    `timeout(SNDTIMEO, completion_notifier.notified())`), and DealerSocket::queue_message_or_error on a full pending
+    queue (the loop around `timeout(SNDTIMEO, queue_activity.notified())`), coroutine MIR, SNDTIMEO positive and
+    symbolic, symbolic monotone clock, recording timers. Between polls the environment wakes the waiter without
+    giving it what it waits for (the other task finishes its message and starts the next one; the queue sees
+    activity but is full again) up to `rounds` times; then the wait ends (transaction idle / room in the queue) or
+    the armed timer fires. Every timer the call arms must expire at (start of the call + SNDTIMEO)."""
+    from ..models import instant_ns
+    prog = h.it.prog
+    W = 128
+    which = h.choose(2, "loop")            # 0 send_multipart behind a transaction, 1 queue_message_or_error on a full queue
+    d = h.bvar("sndtimeo_ns", W)
+    h.assume(z3.And(z3.UGT(d, 0), z3.ULE(d, z3.BitVecVal(2147483647 * 1_000_000, W))))
+    sock, fields = _dealer_socket(h, some(dur_ns(d)))
+    dealer = sock.load()
+    clock = {"last": None, "n": 0}
+    def tick():
+        t = h.bvar(f"t{clock['n']}", W)
+        clock["n"] += 1
+        h.assume(z3.ULE(t, z3.BitVecVal(1 << 70, W)))
+        if clock["last"] is not None:
+            h.assume(z3.UGE(t, clock["last"]))
+        clock["last"] = t
+        return t
+    st = {"fire": False, "armed": [], "t_call": None}
+    def note_start(t):
+        if st["t_call"] is None:
+            st["t_call"] = t
+    def timeout_fn(it, args, dty, func):
+        now = tick()
+        note_start(now)
+        st["armed"].append(simp(now + bv(args[0].f[0], W)))
+        return Agg("{timeout}", [args[0], args[1]])
+    def timeout_at_fn(it, args, dty, func):
+        st["armed"].append(bv(args[0].f[0], W))
+        return Agg("{timeout}", [args[0], args[1]])
+    h.it.hooks["tokio::time::timeout"] = timeout_fn
+    h.it.hooks["tokio::time::timeout_at"] = timeout_at_fn
+    h.it.hooks["tokio::time::sleep"] = lambda it, a, dd, f: Agg("{sleep}", [])
+    from ..models import _notified_poll
+    def extern(it, plain, args, dty, func):
+        if plain.startswith("tokio::time::timeout_at"):
+            return timeout_at_fn(it, args, dty, func)
+        if plain.startswith("tokio::time::timeout"):
+            return timeout_fn(it, args, dty, func)
+        if plain.startswith("tokio::time::sleep"):
+            return Agg("{sleep}", [])
+        if plain in ("tokio::time::Instant::now", "std::time::Instant::now"):
+            t = tick()
+            note_start(t)
+            return instant_ns(t)
+        if plain.startswith(("std::future::pending", "futures::future::pending")):
+            return Agg("{pending}", [])
+        if plain.endswith("Future>::poll"):
+            fut = _deref(args[0])
+            if isinstance(fut, Agg) and fut.ty == "{timeout}":
+                inner = _notified_poll(it, [Ref(Cell(fut.f[1], "inner"), ()) if not isinstance(fut.f[1], Ref) else fut.f[1], args[1]], "", "")
+                if inner.vname == "Ready":
+                    return Enum("std::task::Poll", 0, "Ready", [ok(inner.f[0])])
+                if st["fire"]:
+                    return Enum("std::task::Poll", 0, "Ready", [err(Agg("tokio::time::error::Elapsed", []))])
+                return Enum("std::task::Poll", 1, "Pending", [])
+            if isinstance(fut, Agg) and fut.ty in ("{sleep}", "{pending}"):
+                return Enum("std::task::Poll", 1, "Pending", [])
+            if isinstance(fut, Agg) and fut.ty == "{future}":
+                return Enum("std::task::Poll", 0, "Ready", [ok(UNIT)])
+            return NotImplemented
+        if plain.endswith("IntoFuture>::into_future") or plain.startswith("std::pin::Pin::"):
+            return args[0]
+        return NotImplemented
+    h.it.extern = extern
+    h.panic_role = "c14.dealer-wait"
+    fb = Ref(Cell(h.method("message::FrameBatch", "new"), "fb"), ())
+    h.method("message::FrameBatch", "push", fb, h.method("message::msg::Msg", "from_vec", Seq("vec", [0x44])))
+    tx_i = fields.index("current_send_transaction")
+    q = dealer.f[fields.index("pending_outgoing_queue")].load()
+    qn = dealer.f[fields.index("outgoing_queue_activity_notifier")]
+    def buffering():
+        n = BoxV(Cell(Agg("{notify}", [0, False]), "tx_notify"), ())
+        other = Ref(Cell(h.method("message::FrameBatch", "new"), "other"), ())
+        return Enum("socket::dealer_socket::DealerSendTransaction", 1, "Buffering", [other.load(), n]), n
+    if which == 0:
+        h.it.hooks[prog.resolve_method("", DEALER, "send_logical_message", None)] = lambda it, a, dd, f: Agg("{future}", ["sent"])
+        h.it.hooks[prog.resolve_method("", DEALER, "prepare_full_multipart_send_sequence", None)] = lambda it, a, dd, f: a[1]
+        tx, notifier = buffering()
+        dealer.f[tx_i].f[1] = tx
+        f = Fut(h, DEALER, "send_multipart", [sock, fb.load()], trait="ISocket")
+    else:
+        q.f[1].f.append(clone_val(fb.load()))           # SNDHWM 1: the pending queue is full
+        f = Fut(h, DEALER, "queue_message_or_error", [sock, fb.load(), 1, some(dur_ns(d))])
+    r = f.poll()
+    h.check(r is None, "c14.dealer-wait.setup-call-did-not-wait", repr(r)[:100])
+    if r is None:
+        rounds = h.params.get("rounds", 2)
+        def check_timers():
+            for i, expiry in enumerate(st["armed"]):
+                h.check(expiry == simp(st["t_call"] + d), "c14.dealer-wait.timer-does-not-expire-sndtimeo-after-the-call-started." + ("send-multipart" if which == 0 else "pending-queue"),
+                        f"{'send_multipart behind a frame-by-frame send' if which == 0 else 'queue_message_or_error on a full pending queue'}: arming {i + 1} of {len(st['armed'])} expires later than (start of the call + SNDTIMEO): every wake-up that does not end the wait restarts the full interval")
+        check_timers()
+        h.check(len(st["armed"]) == 1, "c14.dealer-wait.no-timer-armed-for-positive-sndtimeo", str(len(st["armed"])))
+        for j in range(rounds):
+            ev = h.choose(3, f"event{j}")       # 0 woken, nothing gained; 1 the wait ends; 2 the timer fires
+            if ev == 0:
+                if which == 0:
+                    # the other task sends its last frame (notify_waiters) and begins its next message before we run
+                    from ..models import _notify_waiters
+                    _notify_waiters(h.it, [notifier], "", "")
+                    tx, notifier = buffering()
+                    dealer.f[tx_i].f[1] = tx
+                else:
+                    # queue activity (the processor took one message, another sender filled the slot again)
+                    from ..models import _notify_one
+                    _notify_one(h.it, [qn], "", "")
+                r = f.poll()
+                h.check(r is None, "c14.dealer-wait.gave-up-or-completed-without-cause", repr(r)[:100])
+                if r is not None:
+                    return
+                check_timers()
+                h.cover("c14.dealer-wait.woken-without-progress")
+            elif ev == 1:
+                if which == 0:
+                    from ..models import _notify_waiters
+                    _notify_waiters(h.it, [notifier], "", "")
+                    dealer.f[tx_i].f[1] = Enum("socket::dealer_socket::DealerSendTransaction", 0, "Idle", [])
+                else:
+                    from ..models import _notify_one
+                    q.f[1].f.pop(0)
+                    _notify_one(h.it, [qn], "", "")
+                r = f.poll()
+                h.check(r is not None and r.idx == 0, "c14.dealer-wait.did-not-complete-when-the-wait-ended", "pending" if r is None else repr(r)[:100])
+                if which == 1:
+                    h.check(len(q.f[1].f) == 1, "c14.dealer-wait.message-not-queued-exactly-once", str(len(q.f[1].f)))
+                h.cover("c14.dealer-wait.completed-after-wait")
+                return
+            else:
+                st["fire"] = True
+                r = f.poll()
+                h.check(r is not None and r.idx == 1 and r.f[0].vname in ("Timeout", "ResourceLimitReached"), "c14.dealer-wait.elapsed-call-did-not-fail-with-timeout",
+                        "pending" if r is None else repr(r)[:100])
+                if which == 1:
+                    h.check(len(q.f[1].f) == 1, "c14.dealer-wait.timed-out-message-was-queued", str(len(q.f[1].f)))
+                h.cover("c14.dealer-wait.timed-out")
+                return
+
+
+def replay_dealer_send_wait_loops(model, params, role):
+    if role.endswith("after-the-call-started.send-multipart"):
+        # public API: SNDTIMEO 300 ms; another task sends two-frame messages frame by frame, holding each for 250 ms, back to
+        # back; send_multipart from a second task must be over about 300 ms after it began
+        return "dealer_tx_wait 300 250 12\n", (lambda out: "WAITED-LONGER-THAN-SNDTIMEO" in out), \
+            "DEALER with SNDTIMEO=300 ms, send_multipart behind back-to-back frame-by-frame sends of another task; expecting the call to take longer than SNDTIMEO"
+    return None
+
+
+# the race for the transaction slot is real: a run in which the waiting task wins at the first gap shows nothing
+REPLAY_INCONCLUSIVE_WHEN_NOT_REPRODUCED = {"dealer_send_wait_loops": True}
